@@ -53,6 +53,12 @@ type c14Req struct {
 	StartMS  int        `json:"start_ms,omitempty"`
 	CliRead  int        `json:"cli_read"` // client's response-body read buffer
 	CliPause bool       `json:"cli_pause,omitempty"`
+	// Cancel: the request's context is cancelled at a scripted point: 1 before RoundTrip
+	// is called, 2 at the CancelAt-th Read of the request body, 3 when the response
+	// header has arrived, 4 after CancelAt response body bytes, 5 CancelAt fake ms after
+	// RoundTrip was called. A cancelled request carries no delivery obligation.
+	Cancel   int `json:"cancel,omitempty"`
+	CancelAt int `json:"cancel_at,omitempty"`
 	// handler script
 	Status     int        `json:"status"`
 	Early      int        `json:"early"` // >=0: send 103 with the first Early response fields
@@ -270,6 +276,21 @@ func c14Gen(t *rapid.T) c14Case {
 		q.StartMS = rapid.SampledFrom([]int{0, 0, 0, 1, 2, 5}).Draw(t, "startms")
 		q.CliRead = rapid.SampledFrom([]int{1, 100, 4096, 32768, 1 << 20}).Draw(t, "cliread")
 		q.CliPause = rapid.Bool().Draw(t, "clipause")
+		if rapid.IntRange(0, 5).Draw(t, "cancel") == 0 {
+			q.Cancel = rapid.SampledFrom([]int{1, 1, 2, 3, 4, 5, 5}).Draw(t, "cancel-point")
+			switch q.Cancel {
+			case 2:
+				if q.BodyKind == 2 {
+					q.CancelAt = rapid.IntRange(1, len(q.Chunks)+1).Draw(t, "cancel-read")
+				} else {
+					q.Cancel = 1
+				}
+			case 4:
+				q.CancelAt = rapid.SampledFrom([]int{0, 1, 100, 4096, 65535, 100000}).Draw(t, "cancel-bytes")
+			case 5:
+				q.CancelAt = rapid.SampledFrom([]int{0, 1, 2, 5}).Draw(t, "cancel-ms")
+			}
+		}
 
 		q.Status = rapid.OneOf(
 			rapid.SampledFrom([]int{200, 200, 200, 201, 204, 206, 301, 304, 400, 404, 418, 500, 503, 599}),
@@ -323,6 +344,20 @@ func c14Gen(t *rapid.T) c14Case {
 		// is then legitimately refused (the Transport above ClientConn retries); keep
 		// that out of the domain
 		c.Start = 0
+	}
+	// A request that starts after a cancelled one often repeats its header fields: what
+	// the cancelled request did to connection state (HPACK tables, windows, stream
+	// slots) must not leak into requests that were not cancelled.
+	for i := range c.Reqs {
+		j := (i + 1) % len(c.Reqs)
+		if c.Reqs[i].Cancel == 0 || j == i || c.Reqs[j].Cancel != 0 {
+			continue
+		}
+		if rapid.IntRange(0, 2).Draw(t, "echo") > 0 {
+			c.Reqs[j].Fields = append([]c14Field(nil), c.Reqs[i].Fields...)
+			c.Reqs[j].UA = c.Reqs[i].UA
+			c.Reqs[j].StartMS = c.Reqs[i].StartMS + c.Reqs[i].CancelAt%8 + 2
+		}
 	}
 	if rapid.IntRange(0, 3).Draw(t, "aim") == 0 {
 		c14Aim(&c,
